@@ -30,13 +30,21 @@ import (
 // observed per op: 1 ; per server: role term voteTerm voteCand+1 lastIndex nlog (idx term type data)* ;
 // Leader transitions ; number of requests ; the newest request: term prevIdx prevTerm commit n (idx term)*
 type lgMsg struct {
-	to  uint64
-	req *raft.AppendEntriesRequest
+	from, to uint64
+	req      *raft.AppendEntriesRequest
+}
+
+type lgAns struct {
+	req  int
+	resp *raft.AppendEntriesResponse
 }
 
 type lgCluster struct {
 	*evCluster
-	msgs []lgMsg
+	msgs   []lgMsg
+	commit bool // component 102: answers are kept and can be processed by the sender (commitment)
+	ans    []lgAns
+	hb     map[int]bool
 }
 
 func lgData(l *raft.Log) uint64 {
@@ -51,6 +59,14 @@ func (c *lgCluster) observe() []uint64 {
 	var out []uint64
 	for i := 0; i < c.n; i++ {
 		out = append(out, base[5*i:5*i+5]...)
+		if c.commit {
+			nd := c.nodes[uint64(i+1)]
+			nd.fsm.mu.Lock()
+			st := append([]uint64(nil), nd.fsm.state...)
+			nd.fsm.mu.Unlock()
+			out = append(out, nd.r.CommitIndex(), nd.r.AppliedIndex(), uint64(len(st)))
+			out = append(out, st...)
+		}
 		es := c.nodes[uint64(i+1)].logs.Entries()
 		sort.Slice(es, func(a, b int) bool { return es[a].Index < es[b].Index })
 		out = append(out, uint64(len(es)))
@@ -59,6 +75,9 @@ func (c *lgCluster) observe() []uint64 {
 		}
 	}
 	out = append(out, base[5*c.n], uint64(len(c.msgs)))
+	if c.commit {
+		out = append(out, uint64(len(c.ans)))
+	}
 	if len(c.msgs) > 0 {
 		q := c.msgs[len(c.msgs)-1].req
 		out = append(out, q.Term, q.PrevLogEntry, q.PrevLogTerm, q.LeaderCommitIndex, uint64(len(q.Entries)))
@@ -88,34 +107,58 @@ func (c *lgCluster) doRepl(op []uint64) bool {
 		if err != nil {
 			return false
 		}
-		c.msgs = append(c.msgs, lgMsg{op[2], req})
+		c.msgs = append(c.msgs, lgMsg{op[1], op[2], req})
 	case 9:
 		n := c.nodes[op[1]]
 		if n.r.State() != raft.Leader || op[1] == op[2] {
 			return false
 		}
 		req := &raft.AppendEntriesRequest{RPCHeader: raft.RPCHeader{ProtocolVersion: 3, ID: []byte(idStr(op[1])), Addr: []byte(addrStr(op[1]))}, Term: n.r.CurrentTerm()}
-		c.msgs = append(c.msgs, lgMsg{op[2], req})
+		if c.hb == nil {
+			c.hb = map[int]bool{}
+		}
+		c.hb[len(c.msgs)] = true
+		c.msgs = append(c.msgs, lgMsg{op[1], op[2], req})
 	case 10:
 		if op[1] >= uint64(len(c.msgs)) {
 			return false
 		}
 		m := c.msgs[op[1]]
-		c.execute(m.to, m.req)
+		out, err := c.execute(m.to, m.req)
+		if c.commit && err == nil {
+			if resp, ok := out.(*raft.AppendEntriesResponse); ok {
+				c.ans = append(c.ans, lgAns{int(op[1]), resp})
+			}
+		}
+	case 12:
+		// the sender's replication code processes the answer (the branches of replicateTo after the call)
+		if !c.commit || op[1] >= uint64(len(c.ans)) {
+			return false
+		}
+		a := c.ans[op[1]]
+		if c.hb[a.req] {
+			return false
+		}
+		req := c.msgs[a.req].req
+		n := c.nodes[c.msgs[a.req].from]
+		if n.r.State() != raft.Leader || n.r.CurrentTerm() != req.Term {
+			return false
+		}
+		n.r.VerifProcessAppendResponse(idStr(c.msgs[a.req].to), req, a.resp)
 	default:
 		return c.do(op)
 	}
 	return true
 }
 
-var lgOpLen = map[uint64]int{1: 2, 2: 3, 3: 3, 4: 6, 5: 2, 7: 3, 8: 5, 9: 3, 10: 2}
+var lgOpLen = map[uint64]int{1: 2, 2: 3, 3: 3, 4: 6, 5: 2, 7: 3, 8: 5, 9: 3, 10: 2, 12: 2}
 
-func c101Gen(r *rng, n int, steps int) (in []uint64, obs []uint64, leaders int) {
+func c101Gen(r *rng, n int, steps int, commit bool) (in []uint64, obs []uint64, leaders int) {
 	extras := make([]uint64, n)
 	for i := range extras {
 		extras[i] = uint64(r.intn(3))
 	}
-	c := &lgCluster{evCluster: newEvCluster(extras)}
+	c := &lgCluster{evCluster: newEvCluster(extras), commit: commit}
 	defer c.close()
 	c.settle()
 	in = append([]uint64{uint64(n)}, extras...)
@@ -181,6 +224,13 @@ func c101Gen(r *rng, n int, steps int) (in []uint64, obs []uint64, leaders int) 
 		case x < 4:
 			j := uint64(1 + r.intn(n))
 			emit([]uint64{4, j, c.nodes[j].r.CurrentTerm() + uint64(r.intn(3)), uint64(1 + r.intn(n)), uint64(r.intn(5)), uint64(r.intn(3))})
+		case x < 18 && commit && len(c.ans) > 0:
+			// an answer reaches the replication code of its sender, newest first
+			k := len(c.ans) - 1 - r.intn(min(4, len(c.ans)))
+			if r.chance(1, 6) {
+				k = r.intn(len(c.ans))
+			}
+			emit([]uint64{12, uint64(k)})
 		case x < 56:
 			// a leader acts: propose, build a request, heartbeat
 			i := leaders[r.intn(len(leaders))][0]
@@ -253,10 +303,10 @@ func c101Gen(r *rng, n int, steps int) (in []uint64, obs []uint64, leaders int) 
 	return in, obs, c.leaders
 }
 
-func c101Run(in0 []uint64) (in []uint64, obs []uint64, leaders int) {
+func c101Run(in0 []uint64, commit bool) (in []uint64, obs []uint64, leaders int) {
 	n := int(in0[0])
 	extras := in0[1 : 1+n]
-	c := &lgCluster{evCluster: newEvCluster(extras)}
+	c := &lgCluster{evCluster: newEvCluster(extras), commit: commit}
 	defer c.close()
 	c.settle()
 	in = append([]uint64{uint64(n)}, extras...)
@@ -405,7 +455,7 @@ func c101Batch() {
 		sub := &rng{s: subseed}
 		n := 2 + sub.intn(4)
 		steps := 40 + sub.intn(60)
-		in, obs, leaders := c101Gen(sub, n, steps)
+		in, obs, leaders := c101Gen(sub, n, steps, false)
 		fmt.Fprintf(w, "%s %d %d", f[0], leaders, len(in))
 		for _, x := range in {
 			fmt.Fprintf(w, " %d", x)
